@@ -892,5 +892,6 @@ func runC11(c *Ctx) error {
 			fam2.Sample(map[string]any{"sequence": isoOpsStrings(seq), "violations": len(vs)})
 		}
 	}
+	c11FreshProcess(c, tree, scripts)
 	return nil
 }
